@@ -506,8 +506,14 @@ def run_history(binary, ws, evs, scratch, with_fresh=True):
                 srv.s.notify("textDocument/didOpen", {"textDocument": dict(td, languageId="gold", version=1, text=text_of(p, logical[p]))})
             elif e[0] == "C":
                 opened[p] = e[2]
+                # full-text sync: the LAST event of a notification is the document; every third change carries an
+                # earlier full text (and a ranged edit, which full-text sync ignores) in front of it
+                changes = [{"text": text_of(p, e[2])}]
+                if e[2]["vid"] % 3 == 1:
+                    changes = [{"text": text_of(p, logical[p])},
+                               {"range": {"start": {"line": 0, "character": 0}, "end": {"line": 0, "character": 1}}, "text": "x"}] + changes
                 srv.s.notify("textDocument/didChange", {"textDocument": dict(td, version=e[2]["vid"] + 1),
-                                                        "contentChanges": [{"text": text_of(p, e[2])}]})
+                                                        "contentChanges": changes})
             elif e[0] == "S":
                 disk[p] = logical[p]
                 opened[p] = None
